@@ -366,14 +366,14 @@ def scripts(ctx):
     status_kinds = ["form", "leave", "up"]
     for kind in status_kinds:
         alpha0 = ["R=ok", "R=refused", "R=notjoined", "R=joined", "E=up", "E=down", "E=other", "T", "C=1"]
-        L = ctx.n(3, 5)
+        L = ctx.n(3, 4)
         for n in range(1, L + 1):
             # (events of the second EZSP object: in every word up to length 3; the longer words of the thorough tier go without)
             alpha = alpha0 + (["Z=up", "Z=down", "R=noparent", "R=leaving"] if n <= 3 else [])
             for w in itertools.product(alpha, repeat=n):
                 out.append([f"B=1={kind}"] + list(w))
     alpha_scan = ["R=ok", "R=refused", "I", "J", "X=1", "X=0", "C=1", "E=up"]
-    for n in range(1, ctx.n(4, 6) + 1):
+    for n in range(1, ctx.n(4, 5) + 1):
         # (a scan has no deadline of its own - it ends with its completion callback, however long that takes: "T" lets whatever
         # timer is armed expire; in words up to length 4)
         alpha = alpha_scan + (["T"] if n <= 4 else [])
@@ -479,8 +479,8 @@ def run(ctx):
         if rmodel is not None and "|".join(outs) != rmodel[k]:
             ctx.corr_diff("callback registry trace differs", {"registry": [list(x) for x in sc][:30]}, "|".join(outs)[:400], rmodel[k][:400])
     ctx.cov["distinct_nontrivial"] = nontriv
-    ctx.cov["rule"] = (f"formNetwork, leaveNetwork and _ensure_network_running: every event order of length 1..{ctx.n(3, 5)} over {{response ok / refused / not-joined / already-joined, matching and non-matching stack-status events, "
-                       f"timeout, cancellation}}; startScan: every order of length 1..{ctx.n(4, 6)} over {{response, result callbacks (new and repeated values), completion ok/failed, cancellation}} with one result before the scan is issued; random scripts with up to four "
+    ctx.cov["rule"] = (f"formNetwork, leaveNetwork and _ensure_network_running: every event order of length 1..{ctx.n(3, 4)} over {{response ok / refused / not-joined / already-joined, matching and non-matching stack-status events, "
+                       f"timeout, cancellation}}; startScan: every order of length 1..{ctx.n(4, 5)} over {{response, result callbacks (new and repeated values), completion ok/failed, cancellation}} with one result before the scan is issued; random scripts with up to four "
                        "overlapping operations; handlers v4/v8/v14; the callback registry (add / remove / fan-out sequences with colliding ids, as in C06); non-trivial = a timeout, cancellation, refusal or more than one operation")
     ctx.exhaustive = True
 
